@@ -374,7 +374,8 @@ class C02(Oracle):
             return
         culprit = culprit_of(st)
         busy = w.inflight()     # objects whose write is still in progress (we are inside their callback)
-        if st.outcome != 'ok' and st.dest is not None and not st.expect_reject:
+        if st.outcome != 'ok' and st.dest is not None and not st.expect_reject and \
+                not (w.performed_before_abort(st) and not w.strict_abandon):
             busy = set(busy) | {st.dest}    # aborted in place: abandoned, not judged (DESIGN 3.4)
         objs = [(('slot', i), w.slots[i].obj) for i in w.live() if i not in busy]
         if isinstance(st.ret, Fxp) and w.slot_of(st.ret) is None and st.outcome == 'ok':
@@ -499,7 +500,7 @@ class C04(Oracle):
                 continue
             if 'selfreset_at' in st.extra and i == st.dest:
                 continue        # its own callback reset it during the write (fault F8)
-            if any(n.extra.get('reset') and n.dest == i for n in all_nested(st)):
+            if any((n.extra.get('reset') or 'selfreset_at' in n.extra) and n.dest == i for n in all_nested(st)):
                 continue
             ps = status_dict(pre['status'])
             for f in FLAGS:
@@ -853,8 +854,12 @@ class C10(Oracle):
                                 {'field': k, 'before': short(sp[k]), 'after': short(now[k]),
                                  'outcome': st.outcome}, culprit)
                     return
-        if st.outcome != 'ok':
+        if st.outcome != 'ok' and not (sto.target == 'dest' and w.performed_before_abort(st)):
             return
+        if st.outcome != 'ok':
+            # aborted by the destination's own callback AFTER the store (the callback was told that
+            # the value HAS changed): the conversion was performed and is judged like a completed one
+            w.bump('c10_hop_aborted_after_store_judged')
         if sto.target == 'dest':
             if not w.slots[st.dest].alive:
                 return
